@@ -749,58 +749,70 @@ func ruleRecheckGeneration(c *RC) {
 			c.Anchor("discoverUser(publisher, ..., requireCurrent, ...) calling tryState")
 		} else {
 			stateArg := tsCall.Common().Args[0]
-			cut := func(from *ssa.BasicBlock, idx int) bool {
-				iff, ok := from.Instrs[len(from.Instrs)-1].(*ssa.If)
-				if !ok {
+			// Path-sensitive: assume requireCurrent, assume the re-check
+			// "publisher.Load() == the state that was tried" fails, and ask
+			// whether a successful return is still reachable after tryState.
+			// (Boolean locals such as `settled := !requireCurrent || ...`
+			// are resolved through their phis.)
+			isReload := func(a, b ssa.Value) bool {
+				cl, ok := a.(*ssa.Call)
+				if !ok || !strings.HasSuffix(calleeID(cl), "atomic.Pointer[T]).Load") || cl.Common().Args[0] != ssa.Value(pub) {
 					return false
 				}
-				if iff.Cond == ssa.Value(rc) && idx == 1 {
-					return true // assume requireCurrent == true
+				return b == stateArg && instrDominates(tsCall, cl)
+			}
+			atom := func(cond ssa.Value) (string, int, bool) {
+				v, neg := condAtom(cond)
+				ti := 0
+				if neg {
+					ti = 1
 				}
-				if bo, ok := iff.Cond.(*ssa.BinOp); ok && (bo.Op == token.NEQ || bo.Op == token.EQL) {
-					isReload := func(a, b ssa.Value) bool {
-						cl, ok := a.(*ssa.Call)
-						if !ok || !strings.HasSuffix(calleeID(cl), "atomic.Pointer[T]).Load") || cl.Common().Args[0] != ssa.Value(pub) {
-							return false
-						}
-						return b == stateArg && instrDominates(tsCall, cl)
-					}
+				if v == ssa.Value(rc) {
+					return "requireCurrent", ti, true
+				}
+				if bo, ok := v.(*ssa.BinOp); ok && (bo.Op == token.NEQ || bo.Op == token.EQL) {
 					if isReload(bo.X, bo.Y) || isReload(bo.Y, bo.X) {
-						eqIdx := 1
-						if bo.Op == token.EQL {
-							eqIdx = 0
+						if bo.Op == token.NEQ {
+							ti = 1 - ti
 						}
-						if idx == eqIdx {
-							return true // cut the "still current" edge
-						}
+						return "still-current", ti, true
 					}
 				}
-				return false
+				return "", 0, false
 			}
-			// explore from the block of tsCall (after it)
-			bad := false
-			start := tsCall.Block()
-			reach := blockReach(start, cut)
-			for b := range reach {
-				for _, in := range b.Instrs {
-					if r, ok := in.(*ssa.Return); ok && len(r.Results) == 2 && retIsNil(r, 1) {
-						// make sure return is after tsCall if same block
-						if b == start && instrIndex(in) < instrIndex(tsCall) {
-							continue
-						}
-						bad = true
-						c.Bad("recheck-generation@discoverUser", r.Pos(), "with requireCurrent, discoverUser can return a successful result without re-checking publisher.Load()==state after tryState: a credential removed by a completed reload would still authenticate a new connection")
-					}
-				}
-			}
-			if !bad {
-				c.OKH("recheck-generation@discoverUser", tsCall.Pos(), "requireCurrent: every path from tryState to a successful return takes the publisher.Load()==state edge (%d blocks explored with that edge cut)", len(reach))
+			ex := &Explorer{Fn: du, Atom: atom, Assume: map[string]bool{"requireCurrent": true, "still-current": false}}
+			hit := ex.ReachFrom(tsCall, func(in ssa.Instruction) bool {
+				r, ok := in.(*ssa.Return)
+				return ok && len(r.Results) == 2 && retIsNil(r, 1)
+			}, nil)
+			switch {
+			case ex.Over:
+				c.Undecided("recheck-generation@discoverUser", tsCall.Pos(), "state budget exceeded")
+			case hit != nil:
+				c.Bad("recheck-generation@discoverUser", hit.Pos(), "with requireCurrent, discoverUser can return a successful result without re-checking publisher.Load()==state after tryState: a credential removed by a completed reload would still authenticate a new connection")
+			default:
+				c.OKH("recheck-generation@discoverUser", tsCall.Pos(), "requireCurrent: every path from tryState to a successful return takes the publisher.Load()==state edge (%d states explored with the re-check assumed to fail)", ex.States)
 			}
 			// result.generation = the same state
 			gen := p.Field(suPkg, "discoveryResult", "generation")
 			for _, s := range p.FieldStores(gen) {
 				key := "store:discoveryResult.generation@" + fnName(s.Fn)
-				if s.Fn == du && s.Val == stateArg {
+				sameState := false
+				if s.Fn == du {
+					sameState = true
+					nonNil := 0
+					for _, l := range Leaves(s.Val, nil) {
+						if isNilConst(l) {
+							continue // the variable's zero value before the first attempt
+						}
+						nonNil++
+						if l != stateArg {
+							sameState = false
+						}
+					}
+					sameState = sameState && nonNil > 0
+				}
+				if sameState {
 					c.OKH(key, s.Pos(), "generation = the state that was tried")
 				} else if isNilConst(s.Val) {
 					c.OK(key, s.Pos(), "nil")
